@@ -261,6 +261,15 @@ def rules(ck, P):
 
     pm_cover_rules(ck, P)
     pyramid_writers_rule(ck, P)
+    # the converting reader advertises the TRANSFORMED source pyramid: what it returns lies inside it only if the lookup and the stream map
+    # coordinates back with the inverse of exactly that transform (the R-D4 obligations of C06, evaluated there on the D4 group, shared here)
+    from . import c06 as _c06
+    from .report import Check as _Check
+    tmp = _Check("C06", silent=True)
+    _c06.rules(tmp, P)
+    d4 = [o for o in tmp.obligations if o["rule"] == "R-D4"]
+    ck.obligations.extend(d4)
+    ck.anchor("R-D4", "converter transform obligations (shared with C06)", d4, 10)
     from . import c16 as _c16
     _c16.pm_depth_rules(ck, P)
     comp.pyramid_union_rule(ck, P, "R-COVER-OPS")
